@@ -223,6 +223,12 @@ func (cb *CellBuffer) Resize(w, h int) {
 func (cb *CellBuffer) Fill(r rune, style Style) {
 	for i := range cb.cells {
 		c := &cb.cells[i]
+		if c.width > 1 && (c.currMain != r || len(c.currComb) > 0) {
+			// replacing a wide rune: the other columns it covered need a redraw too
+			for j := 1; j < c.width && (i%cb.w)+j < cb.w; j++ {
+				cb.cells[i+j].lastMain = rune(0)
+			}
+		}
 		c.currMain = r
 		c.currComb = nil
 		cs := style
@@ -233,7 +239,7 @@ func (cb *CellBuffer) Fill(r rune, style Style) {
 			cs.bg = c.currStyle.bg
 		}
 		c.currStyle = cs
-		c.width = 1
+		c.width = runewidth.RuneWidth(r)
 	}
 }
 
